@@ -117,6 +117,8 @@ def check_program(name, slots, program, w, wd, sieve, stats, files):
         if emitted:
             starts_at.setdefault(before * 2 * w, set()).add(mname.split('.')[-1])
     for tname, addr in table.items():
+        if any(st[0] in ('pad', 'wflip') for st in prim):
+            break  # addresses are not 2w x (ops before) in programs with pads / wflips
         if not tname.endswith(':start:'):
             continue
         toks = [t for t in re.findall(r'[A-Za-z_][A-Za-z_0-9]*', tname[:-len(':start:')]) if t in {m.split('.')[-1] for m in macro_names}]
